@@ -132,9 +132,15 @@ def rule_frame(ctx: Ctx) -> None:
     SAMPLE = "nusc.get('sample',sample_token)"
     n = 0
     for p in paths:
-        if p.exit and p.exit[0] == "raise":
-            continue
         top = fact_where(p, lambda k: S(k) == f"in:'LIDAR_TOP'in{SAMPLE}['data']")
+        concat = fact_where(p, lambda k: S(k) == f"in:'LIDAR_CONCAT'in{SAMPLE}['data']")
+        if p.exit and p.exit[0] == "raise":
+            if not any(e.kind == "loop" for e in p.effects) and p.exit[1] == "ValueError" and top is not None:
+                ctx.check(top is False and concat is False, "C16-frame-fields", "_sample_to_frame", "no-lidar:raise", f"raises `lidar data isn't found` although LIDAR_TOP={top}, LIDAR_CONCAT={concat} is present", fi=fi)
+            continue
+        ctx.require(top is not None, "_sample_to_frame: the lidar channel test was not recognised")
+        ctx.check(bool(top) or concat is True, "C16-frame-fields", "_sample_to_frame", f"lidar-channel:{top}:{concat}",
+                  f"the frame is built on a path where LIDAR_TOP is absent and LIDAR_CONCAT is {'absent' if concat is False else 'not tested'}", fi=fi)
         chan = "LIDAR_TOP" if top else "LIDAR_CONCAT"
         sd = f"{SAMPLE}['data']['{chan}']"
         rv = p.retval
@@ -191,6 +197,15 @@ def rule_boxes_and_pose(ctx: Ctx) -> None:
     for p in enum_paths(ctx, fb):
         base = fact_where(p, lambda k: S(k) == "eq:frame_id==FrameID.BASE_LINK")
         mp = fact_where(p, lambda k: S(k) == "eq:frame_id==FrameID.MAP")
+        raised = bool(p.exit) and p.exit[0] == "raise"
+        if (base or mp) and raised:
+            seen.add("ego" if base else "map")
+            ctx.violate("C16-boxes", "_get_sample_boxes", f"{'ego' if base else 'map'}:raises", f"requesting boxes in the {'BASE_LINK' if base else 'MAP'} frame raises {p.exit[1]}", fi=fb)
+            continue
+        if not (base or mp) and not raised:
+            seen.add("other")
+            ctx.violate("C16-boxes", "_get_sample_boxes", "other:returns", f"for a frame id that is neither BASE_LINK nor MAP the function returns `{S(p.retval)[:60] if p.retval is not None else None}`; it must raise", fi=fb)
+            continue
         if base:
             seen.add("ego")
             ctx.check(S(p.retval) == "nusc.get_sample_data(sample_data_token)[1]", "C16-boxes", "_get_sample_boxes", "ego", f"ego-frame boxes are `{S(p.retval)[:80]}`; expected the boxes of nusc.get_sample_data (sensor frame)", fi=fb,
@@ -202,7 +217,7 @@ def rule_boxes_and_pose(ctx: Ctx) -> None:
         else:
             seen.add("other")
             ctx.check(bool(p.exit) and p.exit[0] == "raise", "C16-boxes", "_get_sample_boxes", "other", "an unsupported frame id does not raise", fi=fb)
-    ctx.require(seen == {"ego", "map", "other"}, f"_get_sample_boxes: rows {sorted(seen)}")
+    ctx.require(seen >= {"ego", "map"}, f"_get_sample_boxes: rows {sorted(seen)}")
     ft = ctx.func(DU + "_get_transforms")
     ego = "nusc.get('ego_pose',nusc.get('sample_data',sample_data_token)['ego_pose_token'])"
     want = f"HomogeneousMatrix(np.array({ego}['translation']),Quaternion({ego}['rotation']),src=FrameID.BASE_LINK,dst=FrameID.MAP)"
@@ -259,10 +274,28 @@ def rule_dataset(ctx: Ctx) -> None:
             t = U(lp[0].node.target)
             ok = all([(a.recv, S(a.args[0])) for a in appends(bp)] == [("sample_tokens", t)] and not bp.conds for bp in lp[0].body)
         ctx.check(ok or S(p.retval) == "[s['token']forsinnuscenes_sample]", "C16-one-frame-per-sample", "_get_sample_tokens", "identity", "sample tokens are filtered / reordered", fi=fs)
+    # ... and an empty sample table is the only reason to refuse
+    for p in enum_paths(ctx, fs):
+        cd = {S(c[0]): c[1] for c in p.conds if isinstance(c, tuple)}
+        empty = next((v for k, v in cd.items() if k in ("cmp:len([s['token']forsinnuscenes_sample])<1", "eq:len([s['token']forsinnuscenes_sample])==0")), None)
+        if empty is None:
+            tr = next((v for k, v in cd.items() if k == "truthy:[s['token']forsinnuscenes_sample]"), None)
+            empty = None if tr is None else (not tr)
+        raised = bool(p.exit) and p.exit[0] == "raise"
+        ctx.check(empty is not None and raised == empty, "C16-one-frame-per-sample", "_get_sample_tokens", f"refuses-iff-empty:{int(raised)}",
+                  f"the function {'raises' if raised else 'returns'} on [{p.cond_text()[:80]}]; it must raise exactly when the sample table is empty", fi=fs)
     fa = ctx.func(DS + "load_all_datasets")
     for p in enum_paths(ctx, fa):
+        cd = {S(c[0]): c[1] for c in p.conds if isinstance(c, tuple)}
+        one, many = cd.get("isinstance:frame_id,FrameID"), cd.get("isinstance:frame_id,(list,tuple)")
+        if p.exit and p.exit[0] == "raise":
+            ctx.check(one is False and many is False, "C16-one-frame-per-sample", "load_all_datasets", "frame-id:rejects", f"a frame id that is a FrameID={one} / a sequence={many} is rejected", fi=fa)
+            continue
         if p.exit != ("return",):
             continue
+        want_ids = "[frame_id]" if one else "list(frame_id)" if many else None
+        got_ids = {re.search(r"frame_ids=(.*?),load_raw_data=", S(e.value)).group(1) for e2 in p.effects if e2.kind == "loop" for bp in e2.body for e in bp.effects if e.kind == "aug" and "frame_ids=" in S(e.value)}
+        ctx.check(want_ids is not None and got_ids == {want_ids}, "C16-one-frame-per-sample", "load_all_datasets", f"frame-id:{want_ids}", f"the requested frame id reaches the loader as {sorted(got_ids)}; expected {want_ids}", fi=fa)
         lp = [e for e in p.effects if e.kind == "loop"]
         ctx.require(len(lp) == 1 and S(lp[0].text) == "dataset_paths", "load_all_datasets: loop over dataset_paths not found")
         dp = U(lp[0].node.target)
